@@ -1,7 +1,7 @@
 # Copyright 2020 National Technology & Engineering Solutions of Sandia, LLC (NTESS).
 # Under the terms of Contract DE-NA0003525 with NTESS, the U.S. Government retains
 # certain rights in this software.
-import sys, importlib, os
+import sys, importlib, importlib.util, os
 from pathlib import Path
 
 
